@@ -44,6 +44,13 @@ func (wrapper DelegationHooksWrapper) AfterUndelegationStarted(
 	) {
 		// if the operator is opting out, we need to use the finish epoch of the opt out.
 		unbondingCompletionEpoch = wrapper.keeper.GetOperatorOptOutFinishEpoch(ctx, operator)
+		if unbondingCompletionEpoch < 0 {
+			// the opt out is being finished in this very block: the epoch hook has promoted it (and
+			// dropped its finish epoch) in BeginBlock, and EndBlock completes the key removal. there
+			// is no epoch left to wait for, so the undelegation is not held; queueing it under the
+			// "not found" epoch would build a nil store key and reject the undelegation.
+			return nil
+		}
 		// even if the operator opts back in, the undelegated vote power does not reappear
 		// in the picture. slashable events between undelegation and opt in cannot occur
 		// because the operator is not in the validator set.
